@@ -87,6 +87,10 @@ pub struct DelegCase {
     pub ordered: bool,
     /// the provided method is mentioned with applies_default_impl() (counted) instead of left unmentioned
     pub explicit_default_impl: bool,
+    /// the mock is built with Unimock::new_partial (no unmock functions exist: an unmentioned
+    /// provided method still runs its default body)
+    #[serde(default)]
+    pub partial: bool,
 }
 
 /// response of required method m for argument x (a known function, so results can be predicted)
@@ -222,10 +226,11 @@ pub fn source(c: &DelegCase) -> String {
         s.push_str(&format!("    dc.push({cl});\n"));
     }
     s.push_str("    let mut results: Vec<String> = vec![];\n");
+    let ctor = if c.partial { "Unimock::new_partial(dc)" } else { "Unimock::new(dc)" };
     let wrap = match c.recv {
-        Recv::RcShared | Recv::RcSole => "let h = std::rc::Rc::new(Unimock::new(dc));",
-        Recv::ArcShared | Recv::ArcSole => "let h = std::sync::Arc::new(Unimock::new(dc));",
-        _ => "let mut h = Unimock::new(dc);",
+        Recv::RcShared | Recv::RcSole => format!("let h = std::rc::Rc::new({ctor});"),
+        Recv::ArcShared | Recv::ArcSole => format!("let h = std::sync::Arc::new({ctor});"),
+        _ => format!("let mut h = {ctor};"),
     };
     s.push_str(&format!("    {wrap}\n"));
     s.push_str("    let outcome = std::panic::catch_unwind(std::panic::AssertUnwindSafe(move || {\n        let mut results: Vec<String> = vec![];\n");
@@ -342,6 +347,7 @@ pub fn judge(c: &DelegCase, line: &str) -> Result<CaseInfo, String> {
         Recv::ArcSole => "recv:Arc<Self>(sole owner)",
         Recv::PinMut => "recv:Pin<&mut Self>",
     })
+    .class_if(c.partial, "partial-mock")
     .class_if(c.ordered, "required:ordered")
     .class_if(!c.ordered, "required:unordered")
     .class_if(
@@ -394,8 +400,9 @@ pub fn case_strategy() -> impl Strategy<Value = DelegCase> {
         proptest::collection::vec(op, 1..=6),
         any::<bool>(),
         any::<bool>(),
+        proptest::bool::weighted(0.4),
     )
-        .prop_map(|(recv, mut body, mut history, ordered, explicit_default_impl)| {
+        .prop_map(|(recv, mut body, mut history, ordered, explicit_default_impl, partial)| {
             if recv == Recv::Value {
                 // a by-value receiver is consumed by the first call it is passed to
                 body.calls.truncate(1);
@@ -404,11 +411,11 @@ pub fn case_strategy() -> impl Strategy<Value = DelegCase> {
                 }
                 history.truncate(1);
             }
-            DelegCase { recv, body, history, ordered, explicit_default_impl }
+            DelegCase { recv, body, history, ordered, explicit_default_impl, partial }
         })
 }
 
-pub const RULE: &str = "programs = generated traits with two required methods and a provided method whose default body (drawn from an expression grammar) calls 0-3 required methods with values derived from its arguments and earlier results and combines the results; receiver kinds &self, &mut self, self, Rc<Self> / Arc<Self> (with an outer handle alive, and as sole owner), Pin<&mut Self>; required methods configured unordered with exact counts or as one ordered next_call sequence; histories of 1-6 operations mixing direct required calls and delegated calls, the provided method unmentioned or mentioned with applies_default_impl(). Non-trivial = the body calls >= 2 required methods and the history has a delegated call plus another operation; distinct = distinct case";
+pub const RULE: &str = "programs = generated traits with two required methods and a provided method whose default body (drawn from an expression grammar) calls 0-3 required methods with values derived from its arguments and earlier results and combines the results; receiver kinds &self, &mut self, self, Rc<Self> / Arc<Self> (with an outer handle alive, and as sole owner), Pin<&mut Self>; required methods configured unordered with exact counts or as one ordered next_call sequence; histories of 1-6 operations mixing direct required calls and delegated calls, the provided method unmentioned or mentioned with applies_default_impl(); strict and partial mocks. Non-trivial = the body calls >= 2 required methods and the history has a delegated call plus another operation; distinct = distinct case";
 
 fn spec<'a>() -> Spec<'a, DelegCase> {
     Spec {
